@@ -583,6 +583,12 @@ def is_in_polygon(polygon, points, ncaps=0):
             p[key] = getattr(polygon, key)
         except AttributeError:
             p[key] = polygon[pmap[key]]
+    #
+    # A row of a FITS table that has room for only one cap per polygon
+    # holds a bare 3-vector and a scalar instead of arrays.
+    #
+    p['x'] = np.atleast_2d(p['x'])
+    p['cm'] = np.atleast_1d(p['cm'])
     usencaps = p['ncaps']
     if ncaps > 0:
         usencaps = min(ncaps, p['ncaps'])
